@@ -970,3 +970,12 @@ def run(res, facts, tier):
     _run_c04_prev_copyattr(res, facts, tier)
     from . import c01_copyns
     c01_copyns.run_c04_attr_rule(res, facts, tier)
+
+
+_run_c04_prev_surrogate = run
+
+
+def run(res, facts, tier):
+    _run_c04_prev_surrogate(res, facts, tier)
+    from . import c08_surrogate
+    c08_surrogate.run_c04_rule(res, facts, tier)
